@@ -26,6 +26,9 @@ CHECKS = {
     "C13": dict(cat="other", tech="symbolic execution of the sparse assembler and GridFunction routines on free geometry; identities under a symbolic quadrature rule with moment hypotheses decided in LRA after sound monomial abstraction (z3/cvc5)",
                 text="Bounded symbolic verification: identity matrices (DP0/P1/DP1/RWG/SNC pairs, with segments) and Laplace-Beltrami equal the closed-form exact integrals for EVERY quadrature rule satisfying the moment equations of the needed degree; integrate, evaluate_on_element_centers, evaluate_on_vertices, projections and MultiplicationOperator equal a harness-written direct quadrature for all coefficients and geometry values, on meshes of <= 6 elements.",
                 ref="3/C13"),
+    "C16": dict(cat="other", tech="two-symbolic-iteration execution of every prange loop (index inputs as uninterpreted functions, shared arrays recording accesses) with LIA+UF conflict queries; path exploration of the colouring code over a symbolic local2global table (z3/cvc5)",
+                text="Bounded symbolic verification of race freedom: for all 21 parallel functions found by AST scan, no two iterations (unbounded iteration numbers / element indices) access the same cell with a write - for the regular assemblers under the colouring invariant, which is itself decided for every local2global table of 3 elements x 2 (3) local dofs; constructors are swept concretely (auxiliary). Bitwise thread-count independence then follows because each iteration is sequential and deterministic.",
+                ref="3/C16"),
     "C17": dict(cat="translation_validation", tech="symbolic execution of the FMM glue (fmm_assembler, exafmm interface, near-field helpers, map_to_points) with a fake exact-summation exafmm and an uninterpreted kernel family vs the dense assembler; polynomial identities with UFs (cvc5/z3) + NRA kernel lemmas",
                 text="For a symbolic vector and free geometry the FMM-mode matvec equals the dense-mode matvec row by row for scalar, hypersingular and Maxwell electric-field operators (whole-grid, boundary-dof and segment spaces) and scalar potentials, with the far field replaced by exact summation (both through a fake exafmm and through the library's own dense_evaluation switch); the kernel relations used to couple both paths are proved for the real kernels.",
                 ref="3/C17"),
